@@ -1,6 +1,1436 @@
-//! Property C12: correspondence and oracle (stub: nothing built yet).
-use crate::report::Report;
+//! Property C12 "No input or configuration crashes darklua".
+//!
+//! Two parts, reported separately in the evidence:
+//!  * correspondence (ties the Lean theorems to the code): `Token::read` / `Trivia::read`, the
+//!    token operations and the two token rules, real code vs the Lean model (`c12.*` ops);
+//!  * exploration (NOT a proof): crash/hang freedom of `Parser::parse` and `darklua_core::process`
+//!    over generated inputs × rule sequences × generators × column spans, every call under
+//!    `catch_unwind` and a wall-clock watchdog; nesting bounded by a depth measured in child
+//!    processes of this binary (a native stack overflow cannot be caught).
+mod luagen;
+mod pool;
+mod tokens;
 
-pub fn run(report: &mut Report, _replay: Option<&str>) {
-    report.notes.push("C12: no harness yet".to_owned());
+use crate::model::{hex, Model};
+use crate::report::{hash_of, known_findings, Report, Violation};
+use crate::rng::Rng;
+use darklua_core::generator::{LuaGenerator, TokenBasedLuaGenerator};
+use darklua_core::nodes::{Block, Token};
+use darklua_core::verif_hooks as hooks;
+use darklua_core::{Configuration, Options, Parser, Resources};
+use pool::{guarded, Done, PanicInfo, HANG_SECS, STACK_BYTES};
+use serde_json::{json, Value};
+use std::collections::BTreeMap;
+use std::time::{Duration, Instant};
+use tokens::{debug_structure, describe, tokens_of_debug, Pos, Tok, Triv, METHOD_TYPES_MARKER};
+
+/// a nesting depth counts as safe only if the whole pipeline finishes within this time
+const PROBE_SECS: u64 = 5;
+const ENTRY: &str = "src/main.lua";
+const OUTPUT: &str = "out/main.lua";
+
+// =============================================================================================
+// cases
+// =============================================================================================
+
+#[derive(Clone, Debug)]
+struct Case {
+    class: String,
+    text: String,
+    /// extra resources (required modules, other batch members)
+    files: Vec<(String, String)>,
+    /// configurations (json5 text) to run when the text parses; empty = parse only
+    configs: Vec<String>,
+}
+
+impl Case {
+    fn input(&self, config: Option<&str>) -> Value {
+        json!({
+            "kind": "case",
+            "class": self.class,
+            "text": self.text,
+            "files": self.files.iter().map(|(p, c)| json!([p, c])).collect::<Vec<_>>(),
+            "config": config,
+        })
+    }
+    fn from_input(v: &Value) -> Option<Case> {
+        Some(Case {
+            class: v["class"].as_str().unwrap_or("replay").to_owned(),
+            text: v["text"].as_str()?.to_owned(),
+            files: v["files"]
+                .as_array()
+                .map(|a| {
+                    a.iter()
+                        .filter_map(|e| Some((e[0].as_str()?.to_owned(), e[1].as_str()?.to_owned())))
+                        .collect()
+                })
+                .unwrap_or_default(),
+            configs: v["config"].as_str().map(|c| vec![c.to_owned()]).unwrap_or_default(),
+        })
+    }
+}
+
+#[derive(Clone, Debug)]
+struct Failure {
+    /// panic | hang | reparse | missing-output | error-without-file | reference-survives | token-out-of-range
+    kind: String,
+    stage: String,
+    panic: Option<PanicInfo>,
+    detail: String,
+    config: Option<String>,
+    /// the parsed tree does not reproduce the text (modulo whitespace): the parser dependency
+    /// accepted a text it did not understand (H6 of the re-parse oracle is false)
+    uncovered_tree: bool,
+    /// the parsed tree has a method call with a type instantiation (H3 is false)
+    method_types: bool,
+    /// the text (entry or a required module) contains `--` (H7 needs it)
+    text_has_comment: bool,
+    /// the entry text (H9 needs it)
+    text: String,
+}
+
+#[derive(Default)]
+struct CaseResult {
+    text_has_comment: bool,
+    uncovered_tree: bool,
+    method_types: bool,
+    parsed: bool,
+    failures: Vec<Failure>,
+    hists: Vec<(&'static str, String)>,
+    pipelines: u64,
+    keys: Vec<u64>,
+    tokens_checked: u64,
+}
+
+/// spec-level range check (independent of `str::get`): inside the text, on char boundaries
+fn in_range(code: &[u8], pos: &Pos) -> bool {
+    let boundary = |p: usize| p == 0 || p == code.len() || (p < code.len() && code[p] >> 6 != 0b10);
+    match pos {
+        Pos::Ref(s, e, _) => s <= e && *e <= code.len() && boundary(*s) && boundary(*e),
+        _ => true,
+    }
+}
+
+/// H6: the reference positions of the parsed tree (tokens and trivia), sorted by start, are
+/// pairwise disjoint, in range, and cover every non-whitespace byte of the text — i.e. the parser
+/// dependency really accounted for the whole text. Independent of the generators.
+fn tree_covers_text(toks: &[Tok], text: &str) -> bool {
+    let code = text.as_bytes();
+    let mut ranges: Vec<(usize, usize)> = Vec::new();
+    for tok in toks {
+        for pos in all_positions(tok) {
+            match pos {
+                Pos::Ref(s, e, _) => {
+                    if !in_range(code, pos) {
+                        return false;
+                    }
+                    if s < e {
+                        ranges.push((*s, *e));
+                    }
+                }
+                _ => {}
+            }
+        }
+    }
+    ranges.sort();
+    let mut at = 0usize;
+    for (s, e) in ranges {
+        if s < at {
+            return false; // overlap or duplicate
+        }
+        if text.get(at..s).map(|gap| !gap.chars().all(char::is_whitespace)).unwrap_or(true) {
+            return false;
+        }
+        at = e;
+    }
+    text.get(at..).map(|gap| gap.chars().all(char::is_whitespace)).unwrap_or(false)
+}
+
+fn all_positions(tok: &Tok) -> impl Iterator<Item = &Pos> {
+    std::iter::once(&tok.pos)
+        .chain(tok.leading.iter().map(|t| &t.pos))
+        .chain(tok.trailing.iter().map(|t| &t.pos))
+}
+
+fn token_based(block: &Block, code: &str) -> String {
+    let mut generator = TokenBasedLuaGenerator::new(code);
+    generator.write_block(block);
+    generator.into_string()
+}
+
+/// the error values must name a file of the run
+fn names_a_file(message: &str, case: &Case) -> bool {
+    message.contains(ENTRY)
+        || message.contains("main.lua")
+        || case.files.iter().any(|(p, _)| {
+            message.contains(p.as_str()) || p.rsplit('/').next().map(|n| message.contains(n)).unwrap_or(false)
+        })
+}
+
+fn run_pipeline(case: &Case, config_text: &str, result: &mut CaseResult) {
+    let fail = |result: &mut CaseResult, kind: &str, stage: &str, panic: Option<PanicInfo>, detail: String| {
+        result.failures.push(Failure {
+            kind: kind.to_owned(),
+            stage: stage.to_owned(),
+            panic,
+            detail,
+            config: Some(config_text.to_owned()),
+            uncovered_tree: result.uncovered_tree,
+            method_types: result.method_types,
+            text_has_comment: result.text_has_comment,
+            text: case.text.clone(),
+        });
+    };
+    let configuration = match guarded(|| json5::from_str::<Configuration>(config_text)) {
+        Err(panic) => return fail(result, "panic", "configuration", Some(panic), String::new()),
+        Ok(Err(err)) => {
+            // an error value: acceptable; make sure it renders
+            if let Err(panic) = guarded(|| err.to_string()) {
+                fail(result, "panic", "configuration-error-display", Some(panic), String::new());
+            }
+            if std::env::var("DLV_C12_DEBUG").is_ok() {
+                eprintln!("CONFIG REJECTED: {} :: {}", err, config_text.chars().take(300).collect::<String>());
+            }
+            result.hists.push(("pipeline_outcome", "configuration-rejected".to_owned()));
+            return;
+        }
+        Ok(Ok(c)) => c,
+    };
+    let resources = Resources::from_memory();
+    let _ = resources.write(ENTRY, &case.text);
+    for (path, content) in &case.files {
+        let _ = resources.write(path, content);
+    }
+    let batch = case.class.starts_with("batch");
+    let (input, output) = if batch { ("src", "out") } else { (ENTRY, OUTPUT) };
+    let outcome = guarded(|| {
+        darklua_core::process(&resources, Options::new(input).with_output(output).with_configuration(configuration))
+            .map(|tree| tree.result())
+    });
+    result.pipelines += 1;
+    match outcome {
+        Err(panic) => fail(result, "panic", "process", Some(panic), String::new()),
+        Ok(Err(err)) => {
+            let message = match guarded(|| err.to_string()) {
+                Ok(m) => m,
+                Err(panic) => return fail(result, "panic", "error-display", Some(panic), String::new()),
+            };
+            result.hists.push(("pipeline_outcome", "setup-error-value".to_owned()));
+            if message.trim().is_empty() {
+                fail(result, "error-without-file", "process", None, "empty error message".to_owned());
+            }
+        }
+        Ok(Ok(Err(errors))) => {
+            result.hists.push(("pipeline_outcome", "error-values".to_owned()));
+            for err in &errors {
+                match guarded(|| err.to_string()) {
+                    Err(panic) => fail(result, "panic", "error-display", Some(panic), String::new()),
+                    Ok(message) => {
+                        if !names_a_file(&message, case) {
+                            fail(result, "error-without-file", "process", None, message);
+                        }
+                    }
+                }
+            }
+            if batch {
+                check_batch_outputs(case, &resources, config_text, result);
+            }
+        }
+        Ok(Ok(Ok(()))) => {
+            result.hists.push(("pipeline_outcome", "ok".to_owned()));
+            let outputs: Vec<String> = if batch {
+                std::iter::once("out/main.lua".to_owned())
+                    .chain(case.files.iter().filter(|(p, _)| p.ends_with(".lua")).map(|(p, _)| p.replacen("src/", "out/", 1)))
+                    .collect()
+            } else {
+                vec![OUTPUT.to_owned()]
+            };
+            for path in outputs {
+                match resources.get(&path) {
+                    Err(_) => fail(result, "missing-output", "process", None, format!("no output at {}", path)),
+                    Ok(code) => match guarded(|| Parser::default().parse(&code).map(|_| ())) {
+                        Err(panic) => fail(result, "panic", "reparse", Some(panic), code),
+                        Ok(Err(err)) => fail(result, "reparse", "process", None, format!("{} :: output = {:?}", err, code)),
+                        Ok(Ok(())) => {}
+                    },
+                }
+            }
+        }
+    }
+}
+
+/// a batch with one bad member: the good members must still have been written
+fn check_batch_outputs(case: &Case, resources: &Resources, config_text: &str, result: &mut CaseResult) {
+    let members = std::iter::once((ENTRY.to_owned(), case.text.clone())).chain(case.files.iter().cloned());
+    for (path, content) in members {
+        if !path.ends_with(".lua") || !path.starts_with("src/") {
+            continue;
+        }
+        let good = guarded(|| Parser::default().parse(&content).is_ok()).unwrap_or(false);
+        let out = path.replacen("src/", "out/", 1);
+        if good && resources.get(&out).is_err() {
+            result.failures.push(Failure {
+                kind: "missing-output".to_owned(),
+                stage: "batch".to_owned(),
+                panic: None,
+                detail: format!("batch member {} parses but has no output although another member failed", path),
+                config: Some(config_text.to_owned()),
+                uncovered_tree: false,
+                method_types: false,
+                text_has_comment: false,
+                text: case.text.clone(),
+            });
+        }
+    }
+}
+
+fn run_case(case: &Case) -> CaseResult {
+    let mut result = CaseResult::default();
+    let text = case.text.as_str();
+    result.text_has_comment = text.contains("--") || case.files.iter().any(|(_, c)| c.contains("--"));
+    let mut fail = |result: &mut CaseResult, kind: &str, stage: &str, panic: Option<PanicInfo>, detail: String| {
+        let (uncovered_tree, method_types, text_has_comment) = (result.uncovered_tree, result.method_types, result.text_has_comment);
+        result.failures.push(Failure { kind: kind.to_owned(), stage: stage.to_owned(), panic, detail, config: None, uncovered_tree, method_types, text_has_comment, text: case.text.clone() });
+    };
+    // ---- Parser::parse, both modes
+    let plain = guarded(|| Parser::default().parse(text));
+    let preserving = guarded(|| Parser::default().preserve_tokens().parse(text));
+    let mut parsed_block = None;
+    for (stage, outcome) in [("parse", plain), ("parse-preserve-tokens", preserving)] {
+        match outcome {
+            Err(panic) => fail(&mut result, "panic", stage, Some(panic), String::new()),
+            Ok(Err(err)) => {
+                if let Err(panic) = guarded(|| err.to_string()) {
+                    fail(&mut result, "panic", "parser-error-display", Some(panic), String::new());
+                }
+            }
+            Ok(Ok(block)) => {
+                if stage == "parse-preserve-tokens" {
+                    parsed_block = Some(block);
+                }
+                result.parsed = true;
+            }
+        }
+    }
+    result.hists.push(("parse_outcome", if result.parsed { "parses" } else { "error-value" }.to_owned()));
+    result.keys.push(hash_of(&("parse", text)));
+    // ---- tokens of the parsed tree: in range for the text; the rule clears every reference
+    if let Some(block) = parsed_block {
+        let rendering = format!("{:?}", block);
+        result.method_types = debug_structure(&rendering).contains(METHOD_TYPES_MARKER);
+        match guarded(|| tokens_of_debug(&rendering).map(|toks| tree_covers_text(&toks, text))) {
+            Ok(Ok(covers)) => {
+                result.uncovered_tree = !covers;
+                if !covers && std::env::var("DLV_C12_DEBUG").is_ok() {
+                    eprintln!("UNCOVERED text={:?}", text);
+                }
+            }
+            Ok(Err(e)) => fail(&mut result, "harness", "debug-rendering", None, e),
+            Err(panic) => fail(&mut result, "panic", "debug-rendering", Some(panic), String::new()),
+        }
+        result.hists.push(("parsed_tree_covers_text", (!result.uncovered_tree).to_string()));
+        let checks = guarded(|| -> Result<u64, (String, String)> {
+            let toks = tokens_of_debug(&rendering).map_err(|e| ("harness".to_owned(), e))?;
+            for tok in &toks {
+                if let Some(bad) = all_positions(tok).find(|p| !in_range(text.as_bytes(), p)) {
+                    return Err(("token-out-of-range".to_owned(), format!("{:?}", bad)));
+                }
+            }
+            let before = token_based(&block, text);
+            let mut replaced = block.clone();
+            hooks::rule_replace_referenced_tokens(&mut replaced, text);
+            let left = tokens_of_debug(&format!("{:?}", replaced)).map_err(|e| ("harness".to_owned(), e))?;
+            if let Some(tok) = left.iter().find(|t| t.has_reference()) {
+                return Err(("reference-survives".to_owned(), tok.sexp()));
+            }
+            for other in ["", "\u{e9}"] {
+                let after = token_based(&replaced, other);
+                if after != before {
+                    return Err((
+                        "reference-survives".to_owned(),
+                        format!("text changed when generated against {:?}: {:?} vs {:?}", other, after, before),
+                    ));
+                }
+            }
+            Ok(toks.len() as u64)
+        });
+        match checks {
+            Err(panic) => fail(&mut result, "panic", "replace-referenced-tokens", Some(panic), String::new()),
+            Ok(Err((kind, detail))) => fail(&mut result, &kind, "parsed-tree-tokens", None, detail),
+            Ok(Ok(n)) => result.tokens_checked += n,
+        }
+    }
+    // ---- the pipeline
+    if result.parsed || case.class.starts_with("batch") {
+        for config in &case.configs {
+            run_pipeline(case, config, &mut result);
+            result.keys.push(hash_of(&("pipeline", text, config)));
+        }
+    }
+    result
+}
+
+// =============================================================================================
+// known findings, classification, minimisation
+// =============================================================================================
+
+struct Known {
+    id: String,
+    /// signature.kind: "panic" (file suffix + message prefix) | "reference-survives-method-types"
+    /// | "pipeline-on-uncovered-tree"
+    signature: String,
+    file: String,
+    message_prefix: String,
+    what: String,
+    witness: Value,
+}
+
+fn load_known() -> Vec<Known> {
+    known_findings("C12")
+        .into_iter()
+        .filter(|e| e["status"] == "known")
+        .map(|e| Known {
+            id: e["id"].as_str().unwrap_or("?").to_owned(),
+            signature: e["signature"]["kind"].as_str().unwrap_or("").to_owned(),
+            file: e["signature"]["file"].as_str().unwrap_or("").to_owned(),
+            message_prefix: e["signature"]["message_prefix"].as_str().unwrap_or("").to_owned(),
+            what: e["expected_wrong"].as_str().unwrap_or("").to_owned(),
+            witness: e["witness"].clone(),
+        })
+        .collect()
+}
+
+fn classify<'k>(known: &'k [Known], failure: &Failure) -> Option<&'k Known> {
+    known.iter().find(|k| match k.signature.as_str() {
+        "panic" => failure
+            .panic
+            .as_ref()
+            .map(|p| !k.file.is_empty() && p.file().ends_with(&k.file) && p.message.starts_with(&k.message_prefix))
+            .unwrap_or(false),
+        "reference-survives-method-types" => failure.kind == "reference-survives" && failure.method_types,
+        "reparse-remove-spaces-comments" => {
+            failure.kind == "reparse"
+                && failure.text_has_comment
+                && failure
+                    .config
+                    .as_deref()
+                    .and_then(|c| serde_json::from_str::<Value>(c).ok())
+                    .map(|v| {
+                        v["generator"].as_str().map(|g| g.starts_with("retain")).unwrap_or(false)
+                            && v["rules"].as_array().into_iter().flatten().any(|r| {
+                                r.as_str().or(r["rule"].as_str()) == Some("remove_spaces")
+                            })
+                    })
+                    .unwrap_or(false)
+        }
+        "reparse-infinite-number-literal" => {
+            failure.kind == "reparse"
+                && failure
+                    .config
+                    .as_deref()
+                    .and_then(|c| serde_json::from_str::<Value>(c).ok())
+                    .map(|v| v["generator"].is_object())
+                    .unwrap_or(false)
+                && failure
+                    .text
+                    .split(|c: char| !(c.is_ascii_alphanumeric() || c == '_' || c == '.'))
+                    .any(|word| {
+                        word.starts_with(|c: char| c.is_ascii_digit() || c == '.')
+                            && word.replace('_', "").parse::<f64>().map(|v| v.is_infinite()).unwrap_or(false)
+                    })
+        }
+        "pipeline-on-uncovered-tree" => {
+            failure.uncovered_tree && failure.config.is_some() && failure.kind != "hang" && failure.stage != "configuration"
+        }
+        _ => false,
+    })
+}
+
+fn same_failure(a: &Failure, b: &Failure) -> bool {
+    a.kind == b.kind
+        && match (&a.panic, &b.panic) {
+            (Some(x), Some(y)) => x.file() == y.file() && x.message.split(':').next() == y.message.split(':').next(),
+            (None, None) => a.stage == b.stage,
+            _ => false,
+        }
+}
+
+/// shrink the text (and the rule list) of a failing case while the same failure reproduces
+fn minimise(case: &Case, failure: &Failure, budget: Duration) -> (Case, Option<String>) {
+    let start = Instant::now();
+    let mut best = case.clone();
+    best.configs = failure.config.iter().cloned().collect();
+    let reproduces = |c: &Case| -> bool { run_case(c).failures.iter().any(|f| same_failure(f, failure)) };
+    if !reproduces(&best) {
+        return (best.clone(), best.configs.first().cloned());
+    }
+    // rules first
+    if let Some(config) = best.configs.first().cloned() {
+        if let Ok(mut value) = serde_json::from_str::<Value>(&config) {
+            let mut i = 0;
+            while value["rules"].as_array().map(|a| i < a.len()).unwrap_or(false) {
+                let mut candidate = value.clone();
+                candidate["rules"].as_array_mut().unwrap().remove(i);
+                let mut c = best.clone();
+                c.configs = vec![candidate.to_string()];
+                if reproduces(&c) {
+                    value = candidate;
+                    best = c;
+                } else {
+                    i += 1;
+                }
+            }
+        }
+    }
+    // then the text: remove chunks of decreasing size
+    let mut chunk = (best.text.chars().count() / 2).max(1);
+    while chunk >= 1 && start.elapsed() < budget {
+        let chars: Vec<char> = best.text.chars().collect();
+        let mut at = 0;
+        let mut progressed = false;
+        while at < chars.len() && start.elapsed() < budget {
+            let current: Vec<char> = best.text.chars().collect();
+            if at >= current.len() {
+                break;
+            }
+            let end = (at + chunk).min(current.len());
+            let candidate: String = current[..at].iter().chain(current[end..].iter()).collect();
+            let mut c = best.clone();
+            c.text = candidate;
+            if reproduces(&c) {
+                best = c;
+                progressed = true;
+            } else {
+                at += chunk;
+            }
+        }
+        if chunk == 1 && !progressed {
+            break;
+        }
+        chunk = if chunk == 1 { if progressed { 1 } else { 0 } } else { chunk / 2 };
+        if chunk == 0 {
+            break;
+        }
+    }
+    let config = best.configs.first().cloned();
+    (best, config)
+}
+
+// =============================================================================================
+// nesting depth probe (child processes of this binary)
+// =============================================================================================
+
+fn probe_configs() -> Vec<String> {
+    let mut rng = Rng::new(12);
+    let rules: Vec<Value> = darklua_core::rules::get_all_rule_names()
+        .into_iter()
+        .filter(|n| *n != "convert_require")
+        .map(|n| luagen::rule_entry(&mut rng, n))
+        .collect();
+    luagen::GENERATORS
+        .iter()
+        .map(|g| luagen::configuration(&rules, g, 80, false))
+        .collect()
+}
+
+/// child side: run the whole pipeline on one nested text, on a thread with the worker stack size
+fn probe_child(spec: &str) -> ! {
+    let mut parts = spec.split(':');
+    let kind = parts.next().unwrap_or("");
+    let depth: usize = parts.next().and_then(|d| d.parse().ok()).unwrap_or(1);
+    let case = Case { class: "nesting".to_owned(), text: luagen::nested(kind, depth), files: Vec::new(), configs: probe_configs() };
+    let handle = std::thread::Builder::new()
+        .stack_size(STACK_BYTES)
+        .spawn(move || {
+            let result = run_case(&case);
+            if result.failures.iter().any(|f| f.kind == "panic") {
+                3
+            } else {
+                0
+            }
+        })
+        .expect("spawn");
+    let code = handle.join().unwrap_or(3);
+    std::process::exit(code);
+}
+
+#[derive(Clone, Copy, PartialEq, Eq, Debug)]
+enum Probe {
+    Survives,
+    Panics,
+    Crashes,
+    Slow,
+}
+
+fn probe(kind: &str, depth: usize) -> Probe {
+    let exe = match std::env::current_exe() {
+        Ok(e) => e,
+        Err(_) => return Probe::Crashes,
+    };
+    let mut child = match std::process::Command::new(exe)
+        .args(["C12", "--replay", &format!("probe:{}:{}", kind, depth)])
+        .stdout(std::process::Stdio::null())
+        .stderr(std::process::Stdio::null())
+        .spawn()
+    {
+        Ok(c) => c,
+        Err(_) => return Probe::Crashes,
+    };
+    let start = Instant::now();
+    loop {
+        match child.try_wait() {
+            Ok(Some(status)) => {
+                return match status.code() {
+                    Some(0) => Probe::Survives,
+                    Some(3) => Probe::Panics,
+                    _ => Probe::Crashes,
+                }
+            }
+            Ok(None) => {
+                if start.elapsed() > Duration::from_secs(PROBE_SECS) {
+                    let _ = child.kill();
+                    let _ = child.wait();
+                    return Probe::Slow;
+                }
+                std::thread::sleep(Duration::from_millis(5));
+            }
+            Err(_) => return Probe::Crashes,
+        }
+    }
+}
+
+/// largest depth (up to `cap`) found to survive, by doubling then bisection; and what stopped it
+fn measure_depth(kind: &str, cap: usize, refine: u32) -> (usize, String) {
+    let mut ok = 0usize;
+    let mut bad = None;
+    let mut why = "cap reached".to_owned();
+    let mut d = 16usize;
+    loop {
+        let depth = d.min(cap);
+        match probe(kind, depth) {
+            Probe::Survives => {
+                ok = depth;
+                if depth == cap {
+                    break;
+                }
+                d *= 2;
+            }
+            other => {
+                bad = Some(depth);
+                why = format!("{:?} at depth {}", other, depth);
+                break;
+            }
+        }
+    }
+    if let Some(mut hi) = bad {
+        let mut lo = ok;
+        for _ in 0..refine {
+            if hi - lo <= 1 {
+                break;
+            }
+            let mid = lo + (hi - lo) / 2;
+            match probe(kind, mid) {
+                Probe::Survives => lo = mid,
+                other => {
+                    hi = mid;
+                    why = format!("{:?} at depth {}", other, mid);
+                }
+            }
+        }
+        ok = lo;
+    }
+    (ok, why)
+}
+
+// =============================================================================================
+// case generation
+// =============================================================================================
+
+fn random_configs(rng: &mut Rng, all_rules: &[&'static str], count: usize, allow_bundle: bool) -> Vec<String> {
+    (0..count)
+        .map(|_| {
+            let n = rng.below(5);
+            let rules: Vec<Value> = (0..n)
+                .map(|_| {
+                    let name = *rng.pick(all_rules);
+                    luagen::rule_entry(rng, name)
+                })
+                .collect();
+            let generator = *rng.pick(luagen::GENERATORS);
+            let span = if rng.chance(1, 10) { *rng.pick(&[2usize, 3, 7, 20, 1000]) } else { *rng.pick(luagen::SPANS) };
+            luagen::configuration(&rules, generator, span, allow_bundle && rng.chance(1, 2))
+        })
+        .collect()
+}
+
+fn generate_cases(rng: &mut Rng, thorough: bool, safe_depth: &BTreeMap<String, usize>) -> Vec<Case> {
+    let all_rules = darklua_core::rules::get_all_rule_names();
+    let scale = if thorough { 60 } else { 3 };
+    let mut cases = Vec::new();
+    // 1. every (generator × span) with every single rule and with no rule, on one fixed program
+    let fixed = luagen::SNIPPETS[0].to_owned() + luagen::SNIPPETS[1];
+    for generator in luagen::GENERATORS {
+        for span in luagen::SPANS {
+            if *generator == "retain_lines" && *span != 80 {
+                continue;
+            }
+            let mut configs = vec![luagen::configuration(&[], generator, *span, false)];
+            for rule in &all_rules {
+                configs.push(luagen::configuration(&[luagen::rule_entry(rng, rule)], generator, *span, false));
+            }
+            cases.push(Case { class: "each-rule-alone".to_owned(), text: fixed.clone(), files: Vec::new(), configs });
+        }
+    }
+    // 2. grammar-derived programs × random rule sequences
+    for _ in 0..(220 * scale) {
+        let size = 3 + rng.below(25) as i32;
+        let text = luagen::Gen::program(rng, size);
+        let configs = random_configs(rng, &all_rules, 3, false);
+        cases.push(Case { class: "grammar".to_owned(), text, files: Vec::new(), configs });
+    }
+    // 3. grammar-derived then mutated
+    for _ in 0..(500 * scale) {
+        let size = 2 + rng.below(12) as i32;
+        let text = luagen::Gen::program(rng, size);
+        let edits = 1 + rng.below(4);
+        let text = luagen::mutate(rng, &text, edits);
+        let configs = random_configs(rng, &all_rules, 1, false);
+        cases.push(Case { class: "grammar-mutated".to_owned(), text, files: Vec::new(), configs });
+    }
+    // 4. random text
+    for _ in 0..(400 * scale) {
+        let (text, class) = luagen::random_text(rng);
+        let configs = random_configs(rng, &all_rules, 1, false);
+        cases.push(Case { class: class.to_owned(), text, files: Vec::new(), configs });
+    }
+    // 5. truncation at every byte offset of the snippet corpus (prefixes; lossy at non-boundaries)
+    for (index, snippet) in luagen::SNIPPETS.iter().enumerate() {
+        let bytes = snippet.as_bytes();
+        for cut in 0..=bytes.len() {
+            let text = String::from_utf8_lossy(&bytes[..cut]).into_owned();
+            let configs = if cut % 7 == index || cut == bytes.len() { random_configs(rng, &all_rules, 1, false) } else { Vec::new() };
+            cases.push(Case { class: "truncated-prefix".to_owned(), text, files: Vec::new(), configs });
+        }
+        if thorough {
+            for cut in 1..bytes.len() {
+                let text = String::from_utf8_lossy(&bytes[cut..]).into_owned();
+                cases.push(Case { class: "truncated-suffix".to_owned(), text, files: Vec::new(), configs: Vec::new() });
+            }
+        }
+    }
+    // 6. a multi-byte character at every token boundary
+    for (index, snippet) in luagen::SNIPPETS.iter().enumerate() {
+        let boundaries = luagen::token_boundaries(snippet);
+        for (k, at) in boundaries.iter().enumerate() {
+            let chars: Vec<&str> = if thorough { luagen::MULTIBYTE_CHARS.to_vec() } else { vec![luagen::MULTIBYTE_CHARS[(k + index) % luagen::MULTIBYTE_CHARS.len()]] };
+            for c in chars {
+                let mut text = snippet.to_string();
+                text.insert_str(*at, c);
+                let configs = if k % 5 == 0 { random_configs(rng, &all_rules, 1, false) } else { Vec::new() };
+                cases.push(Case { class: "multibyte-at-token-boundary".to_owned(), text, files: Vec::new(), configs });
+            }
+        }
+    }
+    // 7. nesting up to half the measured safe depth, through the probe's configurations
+    let nesting_configs = probe_configs();
+    for kind in luagen::NESTING_KINDS {
+        let safe = safe_depth.get(*kind).copied().unwrap_or(0) / 2;
+        let mut depths: Vec<usize> = vec![1, 2, 3, 5, 8, 13, 21, 34, 55, 89, 144];
+        depths.push(safe);
+        depths.push(safe * 3 / 4);
+        depths.retain(|d| *d >= 1 && *d <= safe);
+        depths.sort();
+        depths.dedup();
+        for depth in depths {
+            cases.push(Case {
+                class: format!("nesting:{}", kind),
+                text: luagen::nested(kind, depth),
+                files: Vec::new(),
+                configs: nesting_configs.clone(),
+            });
+        }
+    }
+    // 8. bundling: the entry requires generated modules (multi-byte content, comments)
+    for _ in 0..(60 * scale) {
+        let module = luagen::Gen::program(rng, 6) + "\nreturn { é = 'é' }\n";
+        let other = "-- é€ header\nlocal M = {} --[[ 𝄞 ]]\nfunction M.f() return `é{1}` end\nreturn M\n".to_owned();
+        let body = luagen::Gen::program(rng, 6);
+        let text = format!("local m = require('./m') -- é\nlocal o = require(\"./other.lua\")\nlocal d = require('./data.json')\n{}\n", body);
+        let files = vec![
+            ("src/m.lua".to_owned(), module),
+            ("src/other.lua".to_owned(), other),
+            ("src/data.json".to_owned(), "{\"a\": [1, 2, {\"é\": null}]}".to_owned()),
+        ];
+        let configs = random_configs(rng, &all_rules, 2, true);
+        cases.push(Case { class: "bundle".to_owned(), text, files, configs });
+    }
+    // 9. batches with one bad member: errors are values naming the file, the rest is written
+    for _ in 0..(25 * scale) {
+        let good = luagen::Gen::program(rng, 5);
+        let good2 = luagen::Gen::program(rng, 5);
+        let edits = 1 + rng.below(2);
+        let bad = luagen::mutate(rng, "local x = (", edits);
+        let files = vec![("src/bad.lua".to_owned(), bad), ("src/lib/good2.lua".to_owned(), good2)];
+        let configs = random_configs(rng, &all_rules, 1, false);
+        cases.push(Case { class: "batch-one-bad".to_owned(), text: good, files, configs });
+    }
+    cases
+}
+
+// =============================================================================================
+// correspondence with the Lean model
+// =============================================================================================
+
+const CODES: &[&str] = &["", "a", "é", "aé€b", "x𝄞y", "return true", "--é\nlocal €=1", "\u{feff}a"];
+
+fn random_pos(rng: &mut Rng, code_len: usize, allow_ln: bool) -> Pos {
+    let line = match rng.below(8) {
+        0 => 0,
+        1 => usize::MAX,
+        2 => usize::MAX - 1,
+        _ => rng.below(9),
+    };
+    let content = |rng: &mut Rng| -> Vec<u8> {
+        rng.pick(&["", "x", "é", "--c", " ", "\n", "€𝄞", "\"q\"\\"]).as_bytes().to_vec()
+    };
+    match rng.below(if allow_ln { 4 } else { 3 }) {
+        0 | 1 => {
+            let s = rng.below(code_len + 3);
+            let e = if rng.chance(3, 4) { s + rng.below(code_len + 3 - s.min(code_len + 2)) } else { rng.below(code_len + 3) };
+            Pos::Ref(s, e, line)
+        }
+        2 => Pos::Any(content(rng)),
+        _ => Pos::Ln(content(rng), line),
+    }
+}
+
+fn random_tok(rng: &mut Rng, code_len: usize) -> Tok {
+    let triv = |rng: &mut Rng| Triv { comment: rng.chance(1, 2), pos: random_pos(rng, code_len, false) };
+    Tok {
+        pos: random_pos(rng, code_len, true),
+        leading: (0..rng.below(3)).map(|_| triv(rng)).collect(),
+        trailing: (0..rng.below(3)).map(|_| triv(rng)).collect(),
+    }
+}
+
+/// real `read` of everything `write_token` reads; `None` = panic
+fn real_read_all(token: &Token, code: &str) -> Option<Vec<Vec<u8>>> {
+    guarded(|| {
+        let mut out = Vec::new();
+        for t in token.iter_leading_trivia() {
+            out.push(t.read(code).as_bytes().to_vec());
+        }
+        out.push(token.read(code).as_bytes().to_vec());
+        for t in token.iter_trailing_trivia() {
+            out.push(t.read(code).as_bytes().to_vec());
+        }
+        out
+    })
+    .ok()
+}
+
+struct Corr<'a> {
+    report: &'a mut Report,
+    model: Model,
+    /// (check, request line, real answer rendered like the model's, input json)
+    pending: Vec<(String, String, String, Value)>,
+}
+
+impl<'a> Corr<'a> {
+    fn push(&mut self, check: &str, request: String, real: String, input: Value) {
+        self.pending.push((check.to_owned(), request, real, input));
+        if self.pending.len() >= 4000 {
+            self.flush();
+        }
+    }
+    fn flush(&mut self) {
+        let pending = std::mem::take(&mut self.pending);
+        let lines: Vec<String> = pending.iter().map(|p| p.1.clone()).collect();
+        let answers = self.model.ask_batch(&lines);
+        for ((check, request, real, input), answer) in pending.into_iter().zip(answers) {
+            self.report.count("correspondence_requests", 1);
+            if answer != real {
+                // The property itself (no crash for an in-range token / a replaced tree) is judged
+                // on the real code: a disagreement where the real code panics although the spec
+                // says "in range" is an oracle failure; anything else is a correspondence break.
+                let oracle = input["spec_in_range"] == json!(true) && real == "none";
+                self.report.violation(Violation {
+                    kind: if oracle { "oracle" } else { "correspondence" }.to_owned(),
+                    check,
+                    what: format!("model answered {} but the code gave {} for `{}`", answer, real, request),
+                    input,
+                    failing_input_found: oracle,
+                });
+            }
+        }
+    }
+}
+
+fn render_read(r: &Option<Vec<Vec<u8>>>) -> String {
+    match r {
+        None => "none".to_owned(),
+        Some(bs) => format!("(some ({}))", bs.iter().map(|b| hex(b)).collect::<Vec<_>>().join(" ")),
+    }
+}
+
+fn correspondence(report: &mut Report, rng: &mut Rng) {
+    let thorough = report.is_thorough();
+    let mut corr = Corr { report, model: Model::spawn(), pending: Vec::new() };
+    // ---- read: exhaustive over (start, end) for the fixed codes
+    for code in CODES {
+        let len = code.len();
+        for s in 0..=len + 1 {
+            for e in 0..=len + 1 {
+                let tok = Tok { pos: Pos::Ref(s, e, 1), leading: vec![], trailing: vec![] };
+                let real = real_read_all(&tok.real().unwrap(), code);
+                let spec = in_range(code.as_bytes(), &tok.pos);
+                corr.report.case(Some(("read", *code, s, e)));
+                corr.report.hist("read", if real.is_some() { "defined" } else { "panics" });
+                if spec != real.is_some() {
+                    corr.report.violation(Violation {
+                        kind: "oracle".to_owned(),
+                        check: "read_total/spec".to_owned(),
+                        what: format!("Token::read defined = {} but the range spec says {}", real.is_some(), spec),
+                        input: json!({"kind": "read", "code": code, "token": tok.sexp()}),
+                        failing_input_found: true,
+                    });
+                }
+                corr.push(
+                    "read",
+                    format!("c12.read {} {}", hex(code.as_bytes()), tok.sexp()),
+                    render_read(&real),
+                    json!({"kind": "read", "code": code, "token": tok.sexp(), "spec_in_range": spec}),
+                );
+                for index in [s, e] {
+                    corr.push(
+                        "boundary",
+                        format!("c12.boundary {} {}", hex(code.as_bytes()), index),
+                        code.is_char_boundary(index).to_string(),
+                        json!({"kind": "boundary", "code": code, "index": index}),
+                    );
+                }
+            }
+        }
+    }
+    corr.report.exhaustive.insert("Token::read over all (start,end) in 0..=len+1 of 8 fixed codes".to_owned(), true);
+    // ---- random tokens with trivia: read + every operation
+    let rounds = if thorough { 40_000 } else { 5_000 };
+    for round in 0..rounds {
+        let code: String = if round % 3 == 0 {
+            (*rng.pick(CODES)).to_owned()
+        } else {
+            (0..rng.below(8)).map(|_| *rng.pick(&['a', ' ', '\n', 'é', '€', '𝄞', '-', '"'])).collect()
+        };
+        let tok = random_tok(rng, code.len());
+        let mut buildable = tok.clone();
+        if let Pos::Ln(c, l) = &buildable.pos {
+            // reachable through the public API as from_position(LineNumber{..})
+            buildable.pos = Pos::Ln(c.clone(), *l);
+        }
+        let real_token = match buildable.real() {
+            Some(t) => t,
+            None => continue,
+        };
+        debug_assert_eq!(describe(&real_token), tok);
+        let input = |op: &str| json!({"kind": "token-op", "op": op, "code": code, "token": tok.sexp()});
+        let code_hex = hex(code.as_bytes());
+        let spec = all_positions(&tok).all(|p| in_range(code.as_bytes(), p));
+        let real = real_read_all(&real_token, &code);
+        corr.report.case(Some(("tok", code.clone(), tok.clone())));
+        corr.report.hist("random_token_in_range", if spec { "in-range" } else { "out-of-range" });
+        let mut read_input = input("read");
+        read_input["spec_in_range"] = json!(spec);
+        corr.push("read", format!("c12.read {} {}", code_hex, tok.sexp()), render_read(&real), read_input);
+        corr.push("inrange", format!("c12.inrange {} {}", code_hex, tok.sexp()), spec.to_string(), input("inrange"));
+        // operations
+        let apply = |f: &dyn Fn(&mut Token)| -> String {
+            let mut t = real_token.clone();
+            match guarded(|| {
+                f(&mut t);
+            }) {
+                Ok(()) => describe(&t).sexp(),
+                Err(_) => "none".to_owned(),
+            }
+        };
+        let content = *rng.pick(&["", "new", "é€", "\n"]);
+        corr.push(
+            "replace_with_content",
+            format!("c12.op replace_with_content {} {}", hex(content.as_bytes()), tok.sexp()),
+            apply(&|t| t.replace_with_content(content.to_owned())),
+            input("replace_with_content"),
+        );
+        let amount: isize = match rng.below(8) {
+            0 => 0,
+            1 => isize::MAX,
+            2 => isize::MIN,
+            3 => -1,
+            4 => 1,
+            _ => rng.range(-12, 12) as isize,
+        };
+        corr.push(
+            "shift_token_line",
+            format!("c12.op shift_token_line {} {}", amount, tok.sexp()),
+            apply(&|t| hooks::token_shift_token_line(t, amount)),
+            input("shift_token_line"),
+        );
+        corr.push("clear_comments", format!("c12.op clear_comments {}", tok.sexp()), apply(&|t| t.clear_comments()), input("clear_comments"));
+        corr.push("clear_whitespaces", format!("c12.op clear_whitespaces {}", tok.sexp()), apply(&|t| t.clear_whitespaces()), input("clear_whitespaces"));
+        corr.push(
+            "filter_comments",
+            format!("c12.op filter_comments_keep_none {}", tok.sexp()),
+            apply(&|t| hooks::token_filter_comments(t, |_| false)),
+            input("filter_comments_keep_none"),
+        );
+        corr.push(
+            "filter_comments",
+            format!("c12.op filter_comments_keep_all {}", tok.sexp()),
+            apply(&|t| hooks::token_filter_comments(t, |_| true)),
+            input("filter_comments_keep_all"),
+        );
+        corr.push(
+            "filter_comments",
+            format!("c12.op filter_comments_keep_content {}", tok.sexp()),
+            apply(&|t| hooks::token_filter_comments(t, |tr| tr.try_read().is_some())),
+            input("filter_comments_keep_content"),
+        );
+        corr.push(
+            "drain_trivia",
+            format!("c12.op drain_leading_trivia {}", tok.sexp()),
+            apply(&|t| {
+                let _ = t.drain_leading_trivia().count();
+            }),
+            input("drain_leading_trivia"),
+        );
+        corr.push(
+            "drain_trivia",
+            format!("c12.op drain_trailing_trivia {}", tok.sexp()),
+            apply(&|t| {
+                let _ = t.drain_trailing_trivia().count();
+            }),
+            input("drain_trailing_trivia"),
+        );
+        let trivia = Triv { comment: rng.chance(1, 2), pos: random_pos(rng, code.len(), false) };
+        let index = rng.below(tok.leading.len() + 3);
+        for (name, f) in [
+            ("push_leading_trivia", &(|t: &mut Token| t.push_leading_trivia(trivia.real().unwrap())) as &dyn Fn(&mut Token)),
+            ("push_trailing_trivia", &|t: &mut Token| t.push_trailing_trivia(trivia.real().unwrap())),
+            ("insert_leading_trivia", &|t: &mut Token| t.insert_leading_trivia(index, trivia.real().unwrap())),
+        ] {
+            corr.push(
+                name,
+                format!("c12.optrivia {} {} ({} {})", name, index, trivia.sexp(), tok.sexp()),
+                apply(f),
+                json!({"kind": "token-op", "op": name, "index": index, "trivia": trivia.sexp(), "token": tok.sexp()}),
+            );
+        }
+        // replace_referenced_tokens: panics exactly when the token is out of range
+        let replaced = apply(&|t| hooks::token_replace_referenced_tokens(t, &code));
+        corr.report.hist("replace_referenced_tokens", if replaced == "none" { "panics" } else { "defined" });
+        if spec != (replaced != "none") {
+            corr.report.violation(Violation {
+                kind: "oracle".to_owned(),
+                check: "replace_referenced_defined_iff/spec".to_owned(),
+                what: format!("replace_referenced_tokens defined = {} but the range spec says {}", replaced != "none", spec),
+                input: input("replace_referenced_tokens"),
+                failing_input_found: true,
+            });
+        }
+        corr.push(
+            "replace_referenced_tokens",
+            format!("c12.op replace_referenced_tokens {} {}", code_hex, tok.sexp()),
+            replaced,
+            input("replace_referenced_tokens"),
+        );
+    }
+    corr.flush();
+    // ---- the two rules on real parsed trees (tokens recovered from Debug output, visiting order = field order)
+    let programs = if thorough { 1500 } else { 250 };
+    for round in 0..programs {
+        let size = 3 + rng.below(10) as i32;
+        let text = if round < luagen::SNIPPETS.len() { luagen::SNIPPETS[round].to_owned() } else { luagen::Gen::program(rng, size) };
+        let block = match guarded(|| Parser::default().preserve_tokens().parse(&text)) {
+            Ok(Ok(b)) => b,
+            _ => continue, // error value, or a parser panic (those are judged by the exploration)
+        };
+        let toks = match tokens_of_debug(&format!("{:?}", block)) {
+            Ok(t) => t,
+            Err(_) => continue,
+        };
+        if toks.is_empty() {
+            continue;
+        }
+        if debug_structure(&format!("{:?}", block)).contains(METHOD_TYPES_MARKER) {
+            // outside H3: the rules do not visit the types of `obj:method<<T>>()` (known finding C12-F3)
+            corr.report.hist("rule_tree", "skipped: method-call type instantiation (outside H3)");
+            continue;
+        }
+        corr.report.hist("rule_tree", "inside H3");
+        let tree = format!("(node ({}) ())", toks.iter().map(Tok::sexp).collect::<Vec<_>>().join(" "));
+        let render = |b: &Block| -> String {
+            match tokens_of_debug(&format!("{:?}", b)) {
+                Ok(t) => format!("(node ({}) ())", t.iter().map(Tok::sexp).collect::<Vec<_>>().join(" ")),
+                Err(e) => format!("harness-error {}", e),
+            }
+        };
+        corr.report.case(Some(("tree", text.clone())));
+        corr.report.hist("tree_tokens", &format!("{}", (toks.len() / 25) * 25));
+        // the rule under the right code, and under wrong codes (a prefix, a text with a shifted multi-byte char)
+        let mut wrong: Vec<String> = vec![text.clone(), String::new(), format!("é{}", text)];
+        let cut = rng.below(text.len() + 1);
+        wrong.push(String::from_utf8_lossy(&text.as_bytes()[..cut]).into_owned());
+        for code in wrong {
+            let mut b = block.clone();
+            let real = match guarded(|| hooks::rule_replace_referenced_tokens(&mut b, &code)) {
+                Ok(()) => format!("(some {})", render(&b)),
+                Err(_) => "none".to_owned(),
+            };
+            corr.report.hist("rule_replace_referenced_tokens", if real == "none" { "panics (foreign code)" } else { "defined" });
+            corr.push(
+                "rule:replace_referenced_tokens",
+                format!("c12.replace {} {}", hex(code.as_bytes()), tree),
+                real,
+                json!({"kind": "rule", "rule": "replace_referenced_tokens", "text": text, "code": code}),
+            );
+        }
+        let amount = rng.range(-5, 40) as isize;
+        let mut b = block.clone();
+        hooks::rule_shift_token_line(&mut b, amount);
+        corr.push(
+            "rule:shift_token_line",
+            format!("c12.shift {} {}", amount, tree),
+            render(&b),
+            json!({"kind": "rule", "rule": "shift_token_line", "text": text, "amount": amount}),
+        );
+    }
+    corr.flush();
+    let requests = corr.model.requests;
+    corr.report.count("model_requests", requests);
+}
+
+// =============================================================================================
+// orchestration
+// =============================================================================================
+
+fn report_failure(report: &mut Report, known: &[Known], case: &Case, failure: &Failure, known_hits: &mut BTreeMap<String, u64>, minimise_budget: Duration) {
+    if let Some(k) = classify(known, failure) {
+        *known_hits.entry(k.id.clone()).or_default() += 1;
+        return;
+    }
+    let (small, config) = if failure.kind == "hang" { (case.clone(), failure.config.clone()) } else { minimise(case, failure, minimise_budget) };
+    let what = match &failure.panic {
+        Some(p) => format!("{} in stage `{}`: {}", failure.kind, failure.stage, p.describe()),
+        None => format!("{} in stage `{}`: {}", failure.kind, failure.stage, failure.detail.chars().take(600).collect::<String>()),
+    };
+    let mut input = small.input(config.as_deref());
+    input["original_text"] = json!(case.text);
+    input["original_config"] = json!(failure.config);
+    report.violation(Violation {
+        kind: "oracle".to_owned(),
+        check: format!("{}:{}", failure.kind, failure.stage),
+        what,
+        input,
+        failing_input_found: true,
+    });
+}
+
+fn corpus_dir() -> std::path::PathBuf {
+    std::path::Path::new(env!("CARGO_MANIFEST_DIR")).join("../corpus/C12")
+}
+
+pub fn run(report: &mut Report, replay: Option<&str>) {
+    if let Some(spec) = replay.and_then(|r| r.strip_prefix("probe:")) {
+        pool::install_panic_hook();
+        probe_child(spec);
+    }
+    pool::install_panic_hook();
+    // orchestration (replays, minimisation, Debug renderings) runs on a roomy stack; the cases
+    // of the exploration themselves run on the 8 MiB workers the depth probe was measured with
+    std::thread::scope(|scope| {
+        std::thread::Builder::new()
+            .name("c12-orchestrator".to_owned())
+            .stack_size(512 * 1024 * 1024)
+            .spawn_scoped(scope, || run_on_big_stack(report, replay))
+            .expect("cannot spawn the orchestration thread")
+            .join()
+            .expect("orchestration thread panicked");
+    });
+}
+
+fn run_on_big_stack(report: &mut Report, replay: Option<&str>) {
+    let start = Instant::now();
+    let thorough = report.is_thorough();
+    let known = load_known();
+    let mut known_hits: BTreeMap<String, u64> = BTreeMap::new();
+    report.rule = "correspondence: Token::read exhaustively over (start,end) of 8 fixed codes, then random tokens with \
+        trivia (3 position kinds, multi-byte codes) through every token operation and the two token rules on parsed \
+        trees, real code vs Lean model; exploration: Parser::parse (both modes) on random / grammar-derived-mutated / \
+        truncated / multi-byte-at-token-boundary / nested texts, and for texts that parse darklua_core::process over \
+        rule sequences (length <= 4, all rules, randomised accepted properties) x 3 generators x column_span {0,1,80,…}, \
+        bundles and batches. Non-trivial = distinct text that reached the parser, distinct (text, configuration) pair \
+        that ran through process(), distinct token/tree sent to the model."
+        .to_owned();
+    report.notes.push(
+        "PROVED (Lean, all inputs): token-range invariant (read_total, read_defined_iff, token_ops_preserve_range, \
+         replace_referenced_*, bundle_obligation, shift_token_line_preserves) and generator bookkeeping \
+         (dense_no_underflow, indentation_balanced, separators_total). EXPLORED, NOT PROVED: crash and hang freedom of the \
+         Rust runtime (parser dependency, rules, generators) — counts and distributions below."
+            .to_owned(),
+    );
+
+    // ---- replay of a stored input
+    if let Some(path) = replay {
+        let stored: Value = std::fs::read_to_string(path).ok().and_then(|t| serde_json::from_str(&t).ok()).unwrap_or(Value::Null);
+        let input = if stored["input"].is_object() { stored["input"].clone() } else { stored.clone() };
+        if let Some(case) = Case::from_input(&input) {
+            let case2 = case.clone();
+            match pool::run_limited(move || run_case(&case2)) {
+                None => report.violation(Violation {
+                    kind: "oracle".to_owned(),
+                    check: "hang:replay".to_owned(),
+                    what: format!("case still exceeds {} s", HANG_SECS),
+                    input,
+                    failing_input_found: true,
+                }),
+                Some(result) => {
+                    report.case(Some(&case.text));
+                    for failure in &result.failures {
+                        report_failure(report, &known, &case, failure, &mut known_hits, Duration::from_secs(0));
+                    }
+                }
+            }
+        } else {
+            // token-level inputs are re-checked by the correspondence pass below
+            let mut rng = Rng::new(report.seed);
+            correspondence(report, &mut rng);
+        }
+        return;
+    }
+
+    // ---- 1. corpus of minimised crashers and regression inputs
+    if let Ok(entries) = std::fs::read_dir(corpus_dir()) {
+        let mut paths: Vec<_> = entries.filter_map(|e| e.ok()).map(|e| e.path()).filter(|p| p.extension().map(|x| x == "json").unwrap_or(false)).collect();
+        paths.sort();
+        for path in paths {
+            let Some(stored) = std::fs::read_to_string(&path).ok().and_then(|t| serde_json::from_str::<Value>(&t).ok()) else { continue };
+            let Some(case) = Case::from_input(&stored) else { continue };
+            let expect = stored["expect"].as_str().unwrap_or("ok").to_owned();
+            let case2 = case.clone();
+            report.count("corpus_cases", 1);
+            report.case(Some(("corpus", &case.text)));
+            match pool::run_limited(move || run_case(&case2)) {
+                None => report.violation(Violation {
+                    kind: "oracle".to_owned(),
+                    check: "hang:corpus".to_owned(),
+                    what: format!("corpus case {} exceeds {} s", path.display(), HANG_SECS),
+                    input: case.input(case.configs.first().map(|s| s.as_str())),
+                    failing_input_found: true,
+                }),
+                Some(result) => {
+                    for failure in &result.failures {
+                        match classify(&known, failure) {
+                            Some(k) if k.id == expect => *known_hits.entry(k.id.clone()).or_default() += 1,
+                            _ => report_failure(report, &known, &case, failure, &mut known_hits, Duration::from_secs(0)),
+                        }
+                    }
+                }
+            }
+        }
+    }
+
+    // ---- 2. known findings: replay each witness
+    for k in &known {
+        if k.witness["kind"] == "exponential-time" {
+            let timed = |text: &str| -> Option<Duration> {
+                let case = Case {
+                    class: "known-finding".to_owned(),
+                    text: text.to_owned(),
+                    files: Vec::new(),
+                    configs: k.witness["config"].as_str().map(|c| vec![c.to_owned()]).unwrap_or_default(),
+                };
+                let begin = Instant::now();
+                pool::run_limited(move || run_case(&case)).map(|_| begin.elapsed())
+            };
+            let small = timed(k.witness["text_small"].as_str().unwrap_or(""));
+            let large = timed(k.witness["text_large"].as_str().unwrap_or(""));
+            let still = match (small, large) {
+                (_, None) => true,
+                (Some(s), Some(l)) => l > Duration::from_millis(100) && l > s * 8,
+                (None, Some(_)) => false,
+            };
+            report.notes.push(format!("{}: {:?} for the small witness, {:?} for the large one (8 more terms; linear time would be x1.5, the measured ratio is what counts)", k.id, small, large));
+            if still {
+                report.known_finding(&k.id, &k.what);
+            }
+            continue;
+        }
+        let Some(case) = Case::from_input(&k.witness) else { continue };
+        let case2 = case.clone();
+        let result = pool::run_limited(move || run_case(&case2));
+        let still = result.map(|r| r.failures.iter().any(|f| classify(&known, f).map(|x| x.id == k.id).unwrap_or(false))).unwrap_or(false);
+        if still {
+            report.known_finding(&k.id, &k.what);
+        }
+    }
+
+    // ---- 3. correspondence with the Lean model
+    let mut rng = Rng::new(report.seed);
+    let mut corr_rng = rng.fork();
+    correspondence(report, &mut corr_rng);
+    report.count("correspondence_wall_ms", start.elapsed().as_millis() as u64);
+
+    // ---- 4. measured safe nesting depth (child processes; 8 MiB stacks)
+    let probe_start = Instant::now();
+    let (cap, refine) = if thorough { (1 << 16, 5) } else { (1 << 11, 2) };
+    let mut safe_depth: BTreeMap<String, usize> = BTreeMap::new();
+    let mut depth_notes: BTreeMap<String, String> = BTreeMap::new();
+    {
+        let kinds: Vec<String> = luagen::NESTING_KINDS.iter().map(|k| k.to_string()).collect();
+        let handles: Vec<_> = kinds
+            .into_iter()
+            .map(|kind| std::thread::spawn(move || {
+                let (depth, why) = measure_depth(&kind, cap, refine);
+                (kind, depth, why)
+            }))
+            .collect();
+        for h in handles {
+            if let Ok((kind, depth, why)) = h.join() {
+                safe_depth.insert(kind.clone(), depth);
+                depth_notes.insert(kind, why);
+            }
+        }
+    }
+    report.notes.push(format!(
+        "measured safe nesting depth in THIS build (child processes, {} MiB thread stack, whole pipeline: parse both modes + {} rules x 3 generators, each within {} s; search cap {}): {}",
+        STACK_BYTES / (1024 * 1024),
+        darklua_core::rules::get_all_rule_names().len() - 1,
+        PROBE_SECS,
+        cap,
+        safe_depth.iter().map(|(k, d)| format!("{}={} ({})", k, d, depth_notes.get(k).cloned().unwrap_or_default())).collect::<Vec<_>>().join("; ")
+    ));
+    for (k, d) in &safe_depth {
+        report.count(&format!("safe_depth:{}", k), *d as u64);
+        if depth_notes.get(k).map(|w| w.starts_with("Panics")).unwrap_or(false) {
+            report.notes.push(format!("nesting kind {} stops with a caught panic rather than a stack overflow: see violations", k));
+        }
+    }
+    report.notes.push("nesting cases of the exploration go up to HALF the measured depth of each kind; deeper nesting exhausts the native stack (an abort that cannot be caught) and is outside the claim".to_owned());
+    report.count("depth_probe_wall_ms", probe_start.elapsed().as_millis() as u64);
+
+    // ---- 5. exploration
+    let cases = generate_cases(&mut rng, thorough, &safe_depth);
+    let threads = std::thread::available_parallelism().map(|n| n.get()).unwrap_or(8).min(16);
+    let mut failures: Vec<(Case, Failure)> = Vec::new();
+    let mut slowest = Duration::from_secs(0);
+    {
+        let report_ref = &mut *report;
+        pool::run_pool(cases, threads, run_case, |done, case| match done {
+            Done::Hung(_) => {
+                report_ref.case(Some(("hang", &case.text)));
+                failures.push((
+                    case.clone(),
+                    Failure {
+                        kind: "hang".to_owned(),
+                        stage: "case".to_owned(),
+                        panic: None,
+                        detail: format!("case exceeded {} s", HANG_SECS),
+                        config: case.configs.first().cloned(),
+                        uncovered_tree: false,
+                        method_types: false,
+                        text_has_comment: false,
+                        text: case.text.clone(),
+                    },
+                ));
+            }
+            Done::Finished(_, result, elapsed) => {
+                slowest = slowest.max(elapsed);
+                report_ref.hist("input_class", case.class.split(':').next().unwrap_or(""));
+                if case.class.starts_with("nesting:") {
+                    report_ref.hist("nesting_kind", &case.class[8..]);
+                }
+                report_ref.hist("text_bytes", &format!("{:>5}+", (case.text.len() / 64) * 64));
+                for (name, bucket) in &result.hists {
+                    report_ref.hist(name, bucket);
+                }
+                for config in &case.configs {
+                    if let Ok(v) = serde_json::from_str::<Value>(config) {
+                        let rules = v["rules"].as_array().map(|a| a.len()).unwrap_or(0);
+                        if result.parsed {
+                            report_ref.hist("rule_sequence_length", &rules.to_string());
+                            let g = v["generator"]["name"].as_str().or(v["generator"].as_str()).unwrap_or("?").to_owned();
+                            let span = v["generator"]["column_span"].as_u64().map(|s| s.to_string()).unwrap_or("-".to_owned());
+                            report_ref.hist("generator_x_span", &format!("{} span={}", g, span));
+                            for r in v["rules"].as_array().into_iter().flatten() {
+                                let name = r["rule"].as_str().or(r.as_str()).unwrap_or("?");
+                                report_ref.hist("rule_used", name);
+                            }
+                            if v["bundle"].is_object() {
+                                report_ref.hist("bundled", "yes");
+                            }
+                        }
+                    }
+                }
+                report_ref.count("process_calls", result.pipelines);
+                report_ref.count("parse_calls", 2);
+                report_ref.count("parsed_tree_tokens_checked_in_range", result.tokens_checked);
+                for key in &result.keys {
+                    report_ref.case(Some(*key));
+                }
+                if report_ref.samples.len() < 8 && result.parsed && !case.configs.is_empty() && case.text.len() < 160 {
+                    report_ref.sample(json!({"class": case.class, "text": case.text, "config": case.configs[0]}));
+                }
+                for failure in result.failures {
+                    failures.push((case.clone(), failure));
+                }
+            }
+        });
+    }
+    report.count("slowest_case_ms", slowest.as_millis() as u64);
+    // a case that exceeded the watchdog while 16 workers (and whatever else runs on the machine)
+    // competed for the CPU is re-run alone with a 6x limit before it is called a hang
+    let suspects: Vec<(Case, Failure)> = failures.iter().filter(|(_, f)| f.kind == "hang").cloned().collect();
+    failures.retain(|(_, f)| f.kind != "hang");
+    for (case, failure) in suspects {
+        report.count("watchdog_suspects", 1);
+        let case2 = case.clone();
+        match pool::run_limited_for(Duration::from_secs(6 * HANG_SECS), move || run_case(&case2)) {
+            None => failures.push((case, failure)),
+            Some(result) => {
+                report.count("watchdog_suspects_finished_when_rerun_alone", 1);
+                for f in result.failures {
+                    failures.push((case.clone(), f));
+                }
+            }
+        }
+    }
+    if std::env::var("DLV_C12_DEBUG").is_ok() {
+        let mut seen: Vec<String> = Vec::new();
+        for (case, failure) in &failures {
+            let key = format!("{} {} {}", failure.kind, failure.stage, failure.panic.as_ref().map(|p| p.describe()).unwrap_or_else(|| failure.detail.chars().take(200).collect()));
+            if !seen.contains(&key) {
+                eprintln!("FAILURE {} :: class={} text={:?} config={:?}", key, case.class, case.text.chars().take(300).collect::<String>(), failure.config);
+                seen.push(key);
+            }
+        }
+    }
+    // classify, minimise (bounded), report
+    let mut reported: Vec<Failure> = Vec::new();
+    let mut minimise_left = 8;
+    for (case, failure) in &failures {
+        report.hist("failure_kind", &failure.kind);
+        if classify(&known, failure).is_none() && reported.iter().any(|f| same_failure(f, failure)) {
+            report.count("duplicate_failures_not_reported", 1);
+            continue;
+        }
+        let budget = if minimise_left > 0 { Duration::from_secs(6) } else { Duration::from_secs(0) };
+        let before = report.violations.len();
+        report_failure(report, &known, case, failure, &mut known_hits, budget);
+        if report.violations.len() > before {
+            reported.push(failure.clone());
+            minimise_left -= 1;
+        }
+    }
+    for (id, n) in &known_hits {
+        report.count(&format!("known_finding_instances:{}", id), *n);
+    }
+    report.count("exploration_wall_ms", start.elapsed().as_millis() as u64);
 }
